@@ -31,7 +31,7 @@ func init() {
 		Rule:       "one run = one generated (type, value); evaluations = individual MarshalTo calls, one per destination length L in 0..Size(v)+16 and per buffer shape (cap==len, cap extends into the trailing canary): cut points are exhaustive per value, values are sampled. non-trivial = the value encodes to at least 2 bytes (so that at least one cut lands inside its output); distinct = distinct hash of (type, Marshal(v) bytes)",
 		FaultKinds: []string{"destination-shorter-than-size", "destination-exact", "destination-longer", "cap-extends-past-len", "value-after-other-values-of-the-same-type", "cut-inside-varint-or-tag", "cut-inside-bytes-or-string", "cut-inside-embedded-message", "cut-inside-repeated", "cut-inside-map-entry", "cut-inside-custom-message", "cut-inside-fixed"},
 		ProbeNames: []string{"values", "values-with-multi-entry-maps(compared canonically)", "values-map-free(compared bytewise)", "size==0", "size>=128(two-byte length prefixes)", "size>=1KiB", "custom-or-Message-types", "unencodable-skipped", "well-formedness-checked(reference parser)"},
-		Real:       []string{"proto.MarshalTo, proto.Size, proto.Marshal, proto.Unmarshal compiled from /repo's working tree (uninstrumented)"},
+		Real:       []string{"proto.MarshalTo, proto.Size, proto.Marshal, proto.Unmarshal compiled from /repo's working tree with sync and sync/atomic redirected to the shim (deterministic simulated sync.Pool, pristine library state before every run)"},
 		Model:      []string{"destination buffer (simio.GuardedBuf: prefill pattern, canaries on both sides)", "well-behaved user Message / gogo-style custom message implementations"},
 		Assumptions: []string{
 			"what MarshalTo leaves in dest[Size:L] on success and in dest[:L] on failure is not constrained by the statement and not checked",
